@@ -55,5 +55,11 @@ def apply():
                 other = deep_realize(other)
         return self.__mod__(other)
 
+    # C codec entry points reached through codecs.StreamWriter (urllib3.filepost.writer): realise the text
+    import _codecs
+    for fn in (_codecs.utf_8_encode, _codecs.latin_1_encode, _codecs.ascii_encode):
+        if fn not in core._PATCH_REGISTRATIONS:
+            core._PATCH_REGISTRATIONS[fn] = core.with_realized_args(fn)
+
     core._PATCH_REGISTRATIONS[format] = safe_format
     core._PATCH_REGISTRATIONS[str.__mod__] = safe_percent
